@@ -709,6 +709,28 @@ impl<'de> Deserializer<'de> {
         check!(len == 0, "blob");
         Ok(len)
     }
+    /// The wire vector does not have key-value entries. Like any vector it still coerces when it
+    /// is empty.
+    fn deserialize_empty_map<'a, V>(&'a mut self, visitor: V) -> Result<V::Value>
+    where
+        V: Visitor<'de>,
+    {
+        let len = self.read_len()?;
+        check!(len == 0, "expect a key-value pair");
+        let unit: Type = TypeInner::Null.into();
+        visitor.visit_map(Compound::new(
+            self,
+            Style::Map {
+                len: 0,
+                expect: (unit.clone(), unit.clone()),
+                wire: (unit.clone(), unit),
+                key_text_fast: false,
+                #[cfg(feature = "bignum")]
+                value_bignum_fast: None,
+                extra: Vec::new(),
+            },
+        ))
+    }
     fn deserialize_blob<'a, V>(&'a mut self, visitor: V) -> Result<V::Value>
     where
         V: Visitor<'de>,
@@ -1282,14 +1304,23 @@ impl<'de> de::Deserializer<'de> for &mut Deserializer<'de> {
                 match (e.as_ref(), w.as_ref()) {
                     (TypeInner::Record(ref e), TypeInner::Record(ref w)) => {
                         match (&e[..], &w[..]) {
-                            (
-                                [Field { id: e_id0, ty: ek }, Field { id: e_id1, ty: ev }],
-                                [Field { id: w_id0, ty: wk }, Field { id: w_id1, ty: wv }],
-                            ) if **e_id0 == Label::Id(0)
-                                && **e_id1 == Label::Id(1)
-                                && **w_id0 == Label::Id(0)
-                                && **w_id1 == Label::Id(1) =>
+                            ([Field { id: e_id0, ty: ek }, Field { id: e_id1, ty: ev }], w)
+                                if **e_id0 == Label::Id(0) && **e_id1 == Label::Id(1) =>
                             {
+                                // Entries are records and follow the record rule: key and value are
+                                // the fields 0 and 1 (a missing one reads as null if its type allows),
+                                // any further field is skipped after the value.
+                                let null: Type = TypeInner::Null.into();
+                                let mut w = w.iter().peekable();
+                                let wk = &match w.peek() {
+                                    Some(f) if f.id.get_id() == 0 => w.next().unwrap().ty.clone(),
+                                    _ => null.clone(),
+                                };
+                                let wv = &match w.peek() {
+                                    Some(f) if f.id.get_id() == 1 => w.next().unwrap().ty.clone(),
+                                    _ => null,
+                                };
+                                let extra: Vec<Type> = w.map(|f| f.ty.clone()).collect();
                                 let expect = (ek.clone(), ev.clone());
                                 let wire = (wk.clone(), wv.clone());
                                 let len = self.read_len()?;
@@ -1326,6 +1357,7 @@ impl<'de> de::Deserializer<'de> for &mut Deserializer<'de> {
                                         key_text_fast,
                                         #[cfg(feature = "bignum")]
                                         value_bignum_fast,
+                                        extra,
                                     },
                                 ));
                                 self.text_fast_path = false;
@@ -1335,10 +1367,10 @@ impl<'de> de::Deserializer<'de> for &mut Deserializer<'de> {
                                 }
                                 result
                             }
-                            _ => Err(Error::subtype("expect a key-value pair")),
+                            _ => self.deserialize_empty_map(visitor),
                         }
                     }
-                    _ => Err(Error::subtype("expect a key-value pair")),
+                    _ => self.deserialize_empty_map(visitor),
                 }
             }
             _ => check!(false),
@@ -1482,6 +1514,7 @@ enum Style {
         key_text_fast: bool,
         #[cfg(feature = "bignum")]
         value_bignum_fast: Option<BigNumFastPath>,
+        extra: Vec<Type>,
     },
 }
 
@@ -1783,6 +1816,7 @@ impl<'de> de::MapAccess<'de> for Compound<'_, 'de> {
                 key_text_fast,
                 #[cfg(feature = "bignum")]
                 value_bignum_fast,
+                ..
             } => {
                 if *len == 0 {
                     return Ok(None);
@@ -1821,6 +1855,7 @@ impl<'de> de::MapAccess<'de> for Compound<'_, 'de> {
                 wire,
                 key_text_fast,
                 value_bignum_fast,
+                extra,
                 ..
             } => {
                 if !(*key_text_fast || value_bignum_fast.is_some()) {
@@ -1830,13 +1865,22 @@ impl<'de> de::MapAccess<'de> for Compound<'_, 'de> {
                 self.de.bignum_vec_fast_path = *value_bignum_fast;
                 self.de.expect_type = expect.1.clone();
                 self.de.wire_type = wire.1.clone();
-                seed.deserialize(&mut *self.de)
+                let value = seed.deserialize(&mut *self.de)?;
+                // the value shortcut must not leak into the skipped fields
+                self.de.bignum_vec_fast_path = None;
+                for ty in extra {
+                    self.de.add_cost(3)?;
+                    self.de.wire_type = ty.clone();
+                    de::Deserializer::deserialize_ignored_any(&mut *self.de, de::IgnoredAny)?;
+                }
+                Ok(value)
             }
             #[cfg(not(feature = "bignum"))]
             Style::Map {
                 expect,
                 wire,
                 key_text_fast,
+                extra,
                 ..
             } => {
                 if !*key_text_fast {
@@ -1845,7 +1889,13 @@ impl<'de> de::MapAccess<'de> for Compound<'_, 'de> {
                 self.de.text_fast_path = false;
                 self.de.expect_type = expect.1.clone();
                 self.de.wire_type = wire.1.clone();
-                seed.deserialize(&mut *self.de)
+                let value = seed.deserialize(&mut *self.de)?;
+                for ty in extra {
+                    self.de.add_cost(3)?;
+                    self.de.wire_type = ty.clone();
+                    de::Deserializer::deserialize_ignored_any(&mut *self.de, de::IgnoredAny)?;
+                }
+                Ok(value)
             }
             _ => {
                 self.de.add_cost(1)?;
